@@ -97,19 +97,30 @@ def render_bobbuild(proj, define=False, prune=True):
     default.yaml but must be passed as -DV=<value> on the command line."""
     files = {"config.yaml": CONFIG}
     files["default.yaml"] = "environment:\n  V: \"%s\"\nwhitelist: [VF_CTL]\n" % ("from-default-yaml" if define else proj["V"])
-    lib = ["checkoutSCM:", "  scm: import", "  url: src/lib", "  prune: %s" % ("True" if prune else "False"),
+    cver = proj.get("cver", 0)
+    tpath = proj.get("tpath", 0)
+    # class inherited by both recipes: its build script fragment runs before the recipe's
+    files["classes/base.yaml"] = "buildScript: " + yaml_block('echo "class base v%s" > class.txt\n' % cver)
+    tooldir = "." if tpath == 0 else "bin"
+    lib_pkg = package_script("lib", proj["pver"]["lib"]) + \
+        'mkdir -p bin\nprintf \'#!/bin/sh\\necho tool-at-top\\n\' > t.sh\nprintf \'#!/bin/sh\\necho tool-in-bin\\n\' > bin/t.sh\nchmod +x t.sh bin/t.sh\n'
+    lib = ["inherit: [base]",
+           "checkoutSCM:", "  scm: import", "  url: src/lib", "  prune: %s" % ("True" if prune else "False"),
            "buildScript: " + yaml_block(build_script("lib", proj["bver"]["lib"], [])),
-           "packageScript: " + yaml_block(package_script("lib", proj["pver"]["lib"])),
-           "provideVars:", "  PV: \"%s\"" % proj["pv"]]
+           "packageScript: " + yaml_block(lib_pkg),
+           "provideVars:", "  PV: \"%s\"" % proj["pv"],
+           "provideTools:", "  t: \"%s\"" % tooldir]
     files["recipes/lib.yaml"] = "\n".join(lib) + "\n"
     bvars = (["V"] if proj["usesV"] else []) + ["PV"]
-    app = ["root: true"]
+    app = ["root: true", "inherit: [base]"]
+    extra = ""
     if proj["dep"]:
-        app += ["depends:", "  - name: lib", "    use: [result, environment]"]
+        app += ["depends:", "  - name: lib", "    use: [result, environment, tools]", "buildTools: [t]"]
+        extra = 'echo "tool=$(t.sh)"'
     app += ["checkoutDeterministic: True",
             "checkoutScript: " + yaml_block(checkout_script("app", proj["src"]["app"])),
             "buildVars: [%s]" % ", ".join(bvars),
-            "buildScript: " + yaml_block(build_script("app", proj["bver"]["app"], bvars)),
+            "buildScript: " + yaml_block(build_script("app", proj["bver"]["app"], bvars, extra=extra)),
             "packageScript: " + yaml_block(package_script("app", proj["pver"]["app"]))]
     files["recipes/app.yaml"] = "\n".join(app) + "\n"
     srcs = {"src/lib": src_files("lib", proj["src"]["lib"])}
